@@ -724,7 +724,18 @@ func run(c *Ctx) error {
 		for i := 0; i < nseq; i++ {
 			var code []byte
 			var args [][]byte
-			switch c.Rng.Intn(3) {
+			switch c.Rng.Intn(4) {
+			case 3: // copy, take a window of the copy, compare with the original
+				code = append(code, copiers[c.Rng.Intn(len(copiers))]...)
+				switch c.Rng.Intn(3) {
+				case 0:
+					code = append(code, byte(0x50+1+c.Rng.Intn(8)), 0x80) // n LEFT
+				case 1:
+					code = append(code, byte(0x50+1+c.Rng.Intn(8)), 0x81) // n RIGHT
+				default:
+					code = append(code, 0x00, byte(0x50+1+c.Rng.Intn(8)), 0x7f) // 0 n SUBSTR
+				}
+				code = append(code, []byte{0x87, 0x88, 0x87}[c.Rng.Intn(3)])
 			case 0: // copy, mutate, keep both
 				code = append(code, copiers[c.Rng.Intn(len(copiers))]...)
 				code = append(code, mutators[c.Rng.Intn(len(mutators))])
